@@ -140,6 +140,10 @@ var ciEndpointSpellings = map[string][]string{
 	`[^\x00-\x60b-\x{10FFFF}]?x`:           {`[^\x00-\x60B-\x{10FFFF}]?x`},
 	`[a-z-[\x00-\x60c-\x{10FFFF}]]?y`:      {`[a-z-[\x00-\x60C-\x{10FFFF}]]?y`},
 	`[\x00-\x{042F}\x{0431}-\x{10FFFF}]z?`: {`[\x00-\x{042F}\x{0411}-\x{10FFFF}]z?`},
+	// open-ended ranges from the first letter on: on texts without the six characters between Z and a the two spellings agree
+	`[a-\x{10FFFF}]`:                     {`[A-\x{10FFFF}]`},
+	`^[^a-\x{10FFFF}]?1$`:                {`^[^A-\x{10FFFF}]?1$`},
+	`[\x00-\x{10FFFF}-[a-\x{10FFFF}]]?1`: {`[\x00-\x{10FFFF}-[A-\x{10FFFF}]]?1`},
 }
 
 // the letters of the excluded run, for directed inputs
@@ -150,6 +154,9 @@ var ciEndpointRun = map[string]string{
 	`[^\x00-\x60b-\x{10FFFF}]?x`:           "aA",
 	`[a-z-[\x00-\x60c-\x{10FFFF}]]?y`:      "abAB",
 	`[\x00-\x{042F}\x{0431}-\x{10FFFF}]z?`: "аА",
+	`[a-\x{10FFFF}]`:                       "aAzZcC",
+	`^[^a-\x{10FFFF}]?1$`:                  "aAzZ",
+	`[\x00-\x{10FFFF}-[a-\x{10FFFF}]]?1`:   "aAzZ",
 }
 
 func legCase(c *Ctx) {
@@ -241,7 +248,7 @@ func legCase(c *Ctx) {
 			in := randString(c.Rng, alphabet, 7)
 			if run := []rune(ciEndpointRun[p.pat]); len(run) > 0 && k < 8 {
 				// texts that begin with (or consist of) a letter of the excluded run, followed by what the template needs
-				in = append([]rune{run[k%len(run)]}, []rune(Pick(c.Rng, []string{"", "x", "y", "z", "xx"}))...)
+				in = append([]rune{run[k%len(run)]}, []rune(Pick(c.Rng, []string{"", "x", "y", "z", "xx", "1", "1"}))...)
 			} else if k%3 == 0 {
 				// short inputs made only of the pattern's own letters in both cases
 				var ls []rune
@@ -296,5 +303,5 @@ func legCase(c *Ctx) {
 	}
 	c.Gate("class subtraction patterns exercised", hits["subtraction"] > 0)
 	c.Gate("backreference patterns exercised", hits["backref"] > 0)
-	c.Gate("endpoint spellings exercised", hits["endpoint-spelling"] >= 6)
+	c.Gate("endpoint spellings exercised", hits["endpoint-spelling"] >= 9)
 }
